@@ -52,6 +52,11 @@ def _builders_engine(pid, tier, seed, known):
 
 from . import builders as _builders_mod   # noqa: E402
 PLAN["C14"] = {"kernels": [], "kinds": [], "extra": [_builders_engine], "trusted": _builders_mod.TRUSTED}
+def _combinations_engine(pid, tier, seed, known):
+    from . import sorting
+    return sorting.engine(pid, tier, seed, known, which=("combinations",))
+
+
 def _gsite_engine(pid, tier, seed, known):
     from . import gsite
     return gsite.engine(pid, tier, seed, known)
@@ -59,7 +64,7 @@ def _gsite_engine(pid, tier, seed, known):
 
 G_TRUST = ["Engine G uses no path conditions: a call site is counted only if the allocation expression alone implies the kernel's extent; the other sites are listed as g_undecided_sites in the evidence and are not covered",
            "Engine G reads the call sites from the source text (kernel::NAME<...>(kernel::lib::cpu, ...) with `x.data()` arguments of locals declared `Index..(EXPR)` in the same function); other argument forms are not covered"]
-PLAN["C12"]["extra"] = [_builders_engine, _forth_engine, _gsite_engine]
+PLAN["C12"]["extra"] = [_builders_engine, _forth_engine, _gsite_engine, _combinations_engine]
 PLAN["C12"]["trusted"] = KERNEL_TRUST + _builders_mod.TRUSTED + _forth_mod.TRUSTED + G_TRUST
 
 
